@@ -386,12 +386,26 @@ def register(S):
             return ctx.ret(ctx.ip.cast(ctx.st, "FloatToFloat", a, rty))
         return ctx.ret(ctx.top_ret())
 
+    @S.pat(r"^core::str::<impl str>::(trim|trim_start|trim_end|trim_ascii|trim_ascii_start|trim_ascii_end)$")
+    def str_trim_ws(ctx):
+        # removing surrounding white space: for the purposes of the rules the same text (hex digits contain none)
+        return ctx.ret(ctx.args[0])
+
     @S.pat(r"^core::num::<impl (u|i)\w+>::from_str_radix$")
     def from_str_radix(ctx):
         radix = ctx.args[1]
         rty = ctx.ret_ty()
         t = ty_of_json(rty["args"][0]) if rty and rty.get("args") else None
         tag = frozenset([("parsed_radix", radix.cval() if isinstance(radix, IntVal) else None)])
+        # which string is parsed: the marker of an input string handed in by a rule survives only if the very same string
+        # (not something derived from it by trimming / slicing / replacing) reaches the parser
+        sv = ctx.args[0]
+        hops = 0
+        while isinstance(sv, RefVal) and hops < 3:
+            sv = ctx.ip.read_loc(ctx.st, sv.loc)
+            hops += 1
+        if isinstance(sv, Opaque) and sv.kind == "str_unknown" and sv.get("origin"):
+            tag = tag | frozenset([("parsed_input", sv.get("origin"))])
         s_ok, s_err = ctx.st, ctx.st.copy()
         v = IntVal.top(t, tags=tag) if t is not None else Top(None, tags=tag)
         return ctx.ret_states([(s_ok, ok(v)), (s_err, err(Top(None)))])
@@ -912,6 +926,49 @@ def register(S):
             return r
         a = ctx.args[0]
         return ctx.ret(ok(a.fields[0]) if a.variant == 1 else err(ctx.args[1]))
+
+    @S.on("core::option::Option::<T>::insert", "core::option::Option::<T>::replace")
+    def option_insert(ctx):
+        ref = ctx.args[0]
+        if not isinstance(ref, RefVal):
+            return NotImplemented
+        old = ctx.ip.read_loc(ctx.st, ref.loc)
+        ctx.ip.write_loc(ctx.st, ref.loc, some(ctx.args[1]))
+        if ctx.path.endswith("replace"):
+            return ctx.ret(old)
+        return ctx.ret(RefVal(ref.loc[:-1] + (ref.loc[-1] + (("d", 1), ("f", 0, None)),), True))
+
+    @S.on("core::option::Option::<T>::get_or_insert_with", "core::option::Option::<T>::get_or_insert")
+    def option_get_or_insert(ctx):
+        ref = ctx.args[0]
+        if not isinstance(ref, RefVal):
+            return NotImplemented
+        cur = ctx.ip.read_loc(ctx.st, ref.loc)
+        if isinstance(cur, Choice) or isinstance(cur, Top):
+            r = split_enum_top(ctx, 0, OPTION, OPT_VARS) if False else None
+        inner = RefVal(ref.loc[:-1] + (ref.loc[-1] + (("d", 1), ("f", 0, None)),), True)
+        if isinstance(cur, AdtVal) and cur.path == OPTION:
+            if cur.variant == 1:
+                return ctx.ret(inner)
+            if ctx.path.endswith("get_or_insert"):
+                ctx.ip.write_loc(ctx.st, ref.loc, some(ctx.args[1]))
+                return ctx.ret(inner)
+            dest, target = ctx.dest, ctx.target
+
+            def done(ip, st, rv):
+                ip.write_loc(st, ref.loc, some(rv))
+                return ip.finish_call(st, dest, target, inner)
+            if ctx.call_closure(ctx.args[1], [], done):
+                return None
+            return NotImplemented
+        if isinstance(cur, Choice):
+            raise NeedSplit(ref.loc)
+        if isinstance(cur, Top):
+            m = ctx.ip.materialise_enum(cur)
+            if m is not None:
+                ctx.ip.write_loc(ctx.st, ref.loc, m)
+                raise NeedSplit(ref.loc)
+        return NotImplemented
 
     @S.on("core::option::Option::<T>::take")
     def option_take(ctx):
